@@ -1339,6 +1339,17 @@ func (s *Server) execInsert(tx *txn, st *ast.InsertStmt, args []Value) (*result,
 			return nil, err
 		}
 		if old, ixName := s.findConflict(tx, t, r, ""); old != nil {
+			if st.IsReplace {
+				// REPLACE: the conflicting row is deleted, the new one inserted (a second conflict on another key is not modelled)
+				if err := s.acquire(tx, lockName(t.Name, t.pkKey(old))); err != nil {
+					return nil, err
+				}
+				tx.put(t, t.pkKey(old), nil)
+				tx.put(t, t.pkKey(r), r)
+				res.affected += 2
+				res.diff = append(res.diff, RowChange{Table: t.Name, PK: t.pkValues(old), Before: append(Row(nil), old...), After: append(Row(nil), r...)})
+				continue
+			}
 			if len(st.OnDuplicate) == 0 {
 				return nil, myErr(1062, "Duplicate entry '%s' for key '%s.%s'", dupText(t, old, ixName), t.Name, ixName)
 			}
